@@ -98,17 +98,17 @@ Proof.
 Qed.
 
 (* ---------- Finalise ---------- *)
-Lemma finalise_get d : forall w a,
-  wget (finalise_world w d) a =
+Lemma finalise_get del d : forall w a,
+  wget (finalise_world del w d) a =
   match wget w a with
-  | Some x => if existsb (N.eqb a) d && (a_sui x || empty x) then None else Some x
+  | Some x => if existsb (N.eqb a) d && (a_sui x || (del && empty x)) then None else Some x
   | None => None
   end.
 Proof.
   unfold finalise_world. induction d as [|b d IH]; intros w a; cbn [fold_left existsb].
   - destruct (wget w a); reflexivity.
   - rewrite IH. destruct (wget w b) as [y|] eqn:Eb.
-    + destruct (a_sui y || empty y) eqn:Ey.
+    + destruct (a_sui y || (del && empty y)) eqn:Ey.
       * rewrite wget_wset. destruct (N.eqb_spec b a) as [->|Hne].
         -- rewrite Eb, N.eqb_refl. cbn. now rewrite Ey.
         -- replace (a =? b) with false by (symmetry; apply N.eqb_neq; congruence). reflexivity.
@@ -126,12 +126,12 @@ Proof.
     assert (existsb (N.eqb a) d1 = true) by (apply existsb_exists; exists a; split; [now apply H|apply N.eqb_refl]). congruence.
 Qed.
 
-Lemma finalise_weq w1 w2 d1 d2 : weq w1 w2 -> seteq d1 d2 -> weq (finalise_world w1 d1) (finalise_world w2 d2).
+Lemma finalise_weq del w1 w2 d1 d2 : weq w1 w2 -> seteq d1 d2 -> weq (finalise_world del w1 d1) (finalise_world del w2 d2).
 Proof.
   intros Hw Hd a. rewrite !finalise_get, (existsb_seteq d1 d2 a Hd). pose proof (Hw a) as Ha.
   destruct (wget w1 a) as [x|], (wget w2 a) as [y|]; cbn in Ha; try contradiction; [|exact I].
   rewrite (empty_aeq x y Ha). destruct Ha as (A & B & C & D). rewrite C.
-  destruct (existsb _ d2 && (a_sui y || empty y)); cbn; [exact I|]. repeat split; auto.
+  destruct (existsb _ d2 && (a_sui y || (del && empty y))); cbn; [exact I|]. repeat split; auto.
 Qed.
 
 (* ---------- snapshots: the journal lengths against the copies ---------- *)
@@ -269,7 +269,7 @@ Ltac aeq_tac := unfold oeq, aeq; cbn [a_nonce a_bal a_sui a_store]; repeat split
 
 Lemma step_R sc sj o : R sc sj -> R (c_step sc o) (j_step sj o).
 Proof.
-  intros (Hw & Hd & Hn & Hs). destruct o as [a n|a amt|a k v|a|a| |id|]; cbn [c_step j_step].
+  intros (Hw & Hd & Hn & Hs). destruct o as [a n|a amt|a k v|a|a| |id|del]; cbn [c_step j_step].
   - (* SetNonce *)
     pose proof (get_or_new_rel _ _ _ _ a Hw Hd) as G.
     destruct (get_or_new (c_w sc) (c_dirty sc) a) as [[wc' dc'] xc].
